@@ -1,5 +1,6 @@
 import KrakenModel.Util.LTS
 import KrakenModel.Model.AnnounceQueue
+import KrakenModel.Model.SchedQueue
 /-
   C20  The announce queue holds each torrent once and serves them in order.
   Statements are about `Model.AnnounceQueue`, which the correspondence check ties to
@@ -141,5 +142,296 @@ theorem add_twice_dups : ¬ GoodQ (sys.run [.add 1, .add 1]) := by decide
 -- non-vacuity: a non-trivial history satisfies the precondition and the invariant
 example : sys.WFHist pre sys.init [.add 1, .add 2, .next, .ready 1, .eject 2, .add 2] := by decide
 example : GoodQ (sys.run [.add 1, .add 2, .next, .ready 1, .eject 2, .add 2]) := by decide
+
+end KrakenModel.Spec.C20
+
+/-
+  C20 at scheduler level: the precondition of `Add` is discharged for every schedule of scheduler events
+  (Model.SchedQueue composed with Model.AnnounceQueue), so the uniqueness invariant holds for every
+  scheduler history with no hypothesis.  `run true` is the scheduler as repaired by the `fix:` commit
+  (removeTorrent always ejects), `run false` the scheduler as it was, for which uniqueness is refuted.
+-/
+namespace KrakenModel.Spec.C20
+open KrakenModel KrakenModel.AnnounceQueue
+open KrakenModel.SchedQueue (Action queueOps bookkeeping tickOps allOps setCtrl)
+
+def isAdd : Op → Bool
+  | .add _ => true
+  | _ => false
+
+/-- membership in the queue (ready list or pending set) -/
+def Queued (q : AnnounceQueue.State) (h : Hash) : Prop := h ∈ q.ready ∨ h ∈ q.pending
+
+theorem wfhist_append (xs ys : List Op) : ∀ q, sys.WFHist pre q (xs ++ ys) ↔
+    sys.WFHist pre q xs ∧ sys.WFHist pre (sys.runFrom q xs) ys := by
+  induction xs with
+  | nil => intro q; simp [Sys.WFHist, Sys.runFrom]
+  | cons x xs ih =>
+    intro q
+    simp only [List.cons_append, Sys.WFHist, Sys.runFrom, List.foldl_cons]
+    have := ih (sys.step q x)
+    simp only [Sys.runFrom] at this
+    rw [this, and_assoc]
+
+theorem pre_of_not_add (q : AnnounceQueue.State) (o : Op) (h : isAdd o = false) : pre q o := by
+  cases o <;> simp_all [isAdd, pre]
+
+theorem queued_step_sub (q : AnnounceQueue.State) (o : Op) (hn : isAdd o = false) (h : Hash)
+    (hq : Queued (AnnounceQueue.step q o) h) : Queued q h := by
+  unfold Queued at *
+  cases o with
+  | add x => simp [isAdd] at hn
+  | next =>
+    simp only [AnnounceQueue.step, next] at hq
+    cases hr : q.ready with
+    | nil => simpa [hr] using hq
+    | cons a rest =>
+      simp only [hr] at hq
+      rcases hq with hq | hq
+      · exact Or.inl (List.mem_cons_of_mem _ hq)
+      · split at hq
+        · exact Or.inr hq
+        · rcases List.mem_cons.mp hq with e | e
+          · subst e; exact Or.inl (by simp)
+          · exact Or.inr e
+  | ready x =>
+    simp only [AnnounceQueue.step, AnnounceQueue.ready] at hq
+    split at hq
+    · rename_i hm
+      rcases hq with hq | hq
+      · rcases List.mem_append.mp hq with e | e
+        · exact Or.inl e
+        · simp at e; subst e; exact Or.inr hm
+      · exact Or.inr (List.mem_of_mem_erase hq)
+    · exact hq
+  | eject x =>
+    simp only [AnnounceQueue.step, eject] at hq
+    rcases hq with hq | hq
+    · exact Or.inl (List.mem_of_mem_erase hq)
+    · exact Or.inr (List.mem_of_mem_erase hq)
+
+/-- a list of queue operations without `Add` respects the precondition, keeps the queue good and adds
+no member -/
+theorem nonadd_ops (ops : List Op) (hn : ∀ o ∈ ops, isAdd o = false) : ∀ q, GoodQ q →
+    sys.WFHist pre q ops ∧ GoodQ (sys.runFrom q ops) ∧ ∀ h, Queued (sys.runFrom q ops) h → Queued q h := by
+  induction ops with
+  | nil => intro q g; exact ⟨trivial, g, fun _ h => h⟩
+  | cons o os ih =>
+    intro q g
+    have ho := hn o (by simp)
+    have hp := pre_of_not_add q o ho
+    have g' := step_good q o g hp
+    obtain ⟨a, b, c⟩ := ih (fun o' h' => hn o' (List.mem_cons_of_mem _ h')) (AnnounceQueue.step q o) g'
+    refine ⟨⟨hp, a⟩, b, ?_⟩
+    intro h hq
+    exact queued_step_sub q o ho h (c h hq)
+
+theorem tickOps_nonadd (sat known : Hash → Bool) : ∀ (fuel : Nat) (q : AnnounceQueue.State) (sk : List Hash),
+    ∀ o ∈ tickOps sat known fuel q sk, isAdd o = false := by
+  intro fuel
+  induction fuel with
+  | zero => intro q sk o ho; simp [tickOps] at ho; obtain ⟨_, _, rfl⟩ := ho; rfl
+  | succ n ih =>
+    intro q sk o ho
+    simp only [tickOps] at ho
+    split at ho
+    · simp at ho; rcases ho with rfl | ⟨_, _, rfl⟩ <;> rfl
+    · split at ho
+      · simp only [List.mem_cons] at ho
+        rcases ho with rfl | ho
+        · rfl
+        · exact ih _ _ o ho
+      · split at ho
+        · simp only [List.mem_cons] at ho
+          rcases ho with rfl | ho
+          · rfl
+          · exact ih _ _ o ho
+        · simp at ho; rcases ho with rfl | ⟨_, _, rfl⟩ <;> rfl
+
+/-- invariant of the scheduler's use of the queue: the queue is good and only torrents that have a
+control are queued -/
+def QInv (s : SchedQueue.State) : Prop := GoodQ s.q ∧ ∀ h, Queued s.q h → (s.ctrl h).isSome = true
+
+theorem queueOps_nonadd (s : SchedQueue.State) (a : Action) (hreq : ∀ h c, a ≠ .request h c) :
+    ∀ o ∈ queueOps true s a, isAdd o = false := by
+  intro o ho
+  cases a with
+  | request h c => exact absurd rfl (hreq h c)
+  | finish h => simp [queueOps] at ho
+  | notice h g =>
+    simp only [queueOps] at ho
+    split at ho
+    · split at ho
+      · split at ho
+        · simp at ho
+        · simp at ho; subst ho; rfl
+      · simp at ho; subst ho; rfl
+    · simp at ho
+  | remove h =>
+    simp only [queueOps] at ho
+    split at ho
+    · split at ho
+      · simp at ho; subst ho; rfl
+      · simp at ho
+    · simp at ho
+  | announceTick sat => exact tickOps_nonadd _ _ _ _ _ o ho
+  | announceResult h =>
+    simp only [queueOps] at ho
+    split at ho
+    · simp at ho; subst ho; rfl
+    · simp at ho
+  | announceErr h => simp [queueOps] at ho; subst ho; rfl
+
+theorem step_q (rep : Bool) (s : SchedQueue.State) (a : Action) :
+    (SchedQueue.step rep s a).q = sys.runFrom s.q (queueOps rep s a) := rfl
+
+theorem step_ctrl (rep : Bool) (s : SchedQueue.State) (a : Action) :
+    (SchedQueue.step rep s a).ctrl = (bookkeeping s a).ctrl := rfl
+
+/-- one scheduler event: its queue calls respect the precondition of `Add`, and the invariant is kept -/
+theorem sched_step (s : SchedQueue.State) (a : Action) (hi : QInv s) :
+    sys.WFHist pre s.q (queueOps true s a) ∧ QInv (SchedQueue.step true s a) := by
+  obtain ⟨hg, hm⟩ := hi
+  by_cases hreq : ∃ h c, a = .request h c
+  · obtain ⟨h, c, rfl⟩ := hreq
+    cases hc : s.ctrl h with
+    | some v =>
+      have hops : queueOps true s (.request h c) = [] := by simp [queueOps, hc]
+      refine ⟨by rw [hops]; trivial, ?_⟩
+      simp only [QInv, step_q, step_ctrl, hops, Sys.runFrom, List.foldl_nil, bookkeeping, hc, Option.isSome_some, if_true]
+      exact ⟨hg, hm⟩
+    | none =>
+      have hops : queueOps true s (.request h c) = [.add h] := by simp [queueOps, hc]
+      have hnq : ¬ Queued s.q h := fun hq => by have := hm h hq; simp [hc] at this
+      have hpre : pre s.q (.add h) := ⟨fun x => hnq (Or.inl x), fun x => hnq (Or.inr x)⟩
+      refine ⟨by rw [hops]; exact ⟨hpre, trivial⟩, ?_⟩
+      simp only [QInv, step_q, step_ctrl, hops, Sys.runFrom, List.foldl_cons, List.foldl_nil]
+      refine ⟨step_good s.q (.add h) hg hpre, ?_⟩
+      intro k hk
+      have hctrl : (bookkeeping s (.request h c)).ctrl k = if k = h then some (s.nextGen, c) else s.ctrl k := by
+        simp only [bookkeeping, hc, Option.isSome_none, Bool.false_eq_true, if_false]
+        split <;> simp [setCtrl]
+      rw [hctrl]
+      by_cases e : k = h
+      · simp [e]
+      · simp only [e, if_false]
+        apply hm k
+        simp only [Queued, sys, AnnounceQueue.step, add] at hk ⊢
+        rcases hk with hk | hk
+        · rcases List.mem_append.mp hk with x | x
+          · exact Or.inl x
+          · simp at x; exact absurd x e
+        · exact Or.inr hk
+  · have hreq' : ∀ h c, a ≠ .request h c := fun h c e => hreq ⟨h, c, e⟩
+    obtain ⟨w1, w2, w3⟩ := nonadd_ops (queueOps true s a) (queueOps_nonadd s a hreq') s.q hg
+    refine ⟨w1, ?_⟩
+    simp only [QInv, step_q, step_ctrl]
+    refine ⟨w2, ?_⟩
+    intro k hk
+    have hold := hm k (w3 k hk)
+    cases a with
+    | request h c => exact absurd rfl (hreq' h c)
+    | finish h =>
+      simp only [bookkeeping]
+      cases hc : s.ctrl h with
+      | none => simpa [hc] using hold
+      | some v =>
+        obtain ⟨g, b⟩ := v
+        cases b
+        · by_cases e : k = h
+          · simp [setCtrl, e]
+          · simpa [setCtrl, e] using hold
+        · simpa [hc] using hold
+    | notice h g => simpa [bookkeeping] using hold
+    | remove h =>
+      simp only [bookkeeping, setCtrl]
+      by_cases e : k = h
+      · subst e
+        exfalso
+        cases hc : s.ctrl k with
+        | none => simp [hc] at hold
+        | some v =>
+          obtain ⟨g, b⟩ := v
+          have hops : queueOps true s (.remove k) = [.eject k] := by simp [queueOps, hc]
+          rw [hops] at hk
+          simp only [Sys.runFrom, List.foldl_cons, List.foldl_nil] at hk
+          have := eject_gone s.q k hg
+          rcases hk with hk | hk
+          · exact this.1 hk
+          · exact this.2 hk
+      · simpa [e] using hold
+    | announceTick sat => simpa [bookkeeping] using hold
+    | announceResult h => simpa [bookkeeping] using hold
+    | announceErr h => simpa [bookkeeping] using hold
+
+theorem qinv_init : QInv SchedQueue.init := by
+  refine ⟨good_init, ?_⟩
+  intro h hq; simp [SchedQueue.init, Queued] at hq
+
+theorem sched_runFrom (sched : List Action) : ∀ s, QInv s →
+    sys.WFHist pre s.q (allOps true s sched) ∧ QInv (SchedQueue.runFrom true s sched) ∧
+    (SchedQueue.runFrom true s sched).q = sys.runFrom s.q (allOps true s sched) := by
+  induction sched with
+  | nil => intro s hi; exact ⟨trivial, hi, rfl⟩
+  | cons a as ih =>
+    intro s hi
+    obtain ⟨h1, h2⟩ := sched_step s a hi
+    obtain ⟨i1, i2, i3⟩ := ih (SchedQueue.step true s a) h2
+    refine ⟨?_, i2, ?_⟩
+    · simp only [allOps]
+      rw [wfhist_append]
+      exact ⟨h1, by rw [← step_q]; exact i1⟩
+    · simp only [SchedQueue.runFrom, List.foldl_cons, allOps] at i3 ⊢
+      rw [i3, step_q]
+      simp [Sys.runFrom, List.foldl_append]
+
+/-- **C20 (5)** For EVERY schedule of scheduler events (requests, completions and their asynchronous
+events in any order, removals, announce ticks with any saturation, announce results and failures) the
+queue operations the scheduler performs form a history that respects the precondition of `Add` at every
+`Add` — and the scheduler's queue is the queue model run on exactly that history. -/
+theorem sched_add_precondition (sched : List Action) :
+    sys.WFHist pre sys.init (allOps true SchedQueue.init sched) ∧
+    (SchedQueue.run true sched).q = sys.run (allOps true SchedQueue.init sched) := by
+  obtain ⟨a, _, c⟩ := sched_runFrom sched SchedQueue.init qinv_init
+  exact ⟨a, c⟩
+
+/-- **C20 (6)** Hence uniqueness holds for every scheduler history, with no hypothesis. -/
+theorem sched_queue_nodup (sched : List Action) : GoodQ (SchedQueue.run true sched).q := by
+  rw [(sched_add_precondition sched).2]
+  exact queue_nodup _ (sched_add_precondition sched).1
+
+/-- **C20 (7)** Only torrents that have a torrent control are in the queue (ready or pending). -/
+theorem sched_queued_have_controls (sched : List Action) (h : Hash)
+    (hq : Queued (SchedQueue.run true sched).q h) : ((SchedQueue.run true sched).ctrl h).isSome = true :=
+  (sched_runFrom sched SchedQueue.init qinv_init).2.1.2 h hq
+
+/-- **C20 (8)** After a removal the torrent is in neither structure, whatever happened before. -/
+theorem sched_removed_not_queued (sched : List Action) (h : Hash) :
+    ¬ Queued (SchedQueue.step true (SchedQueue.run true sched) (.remove h)).q h := by
+  intro hq
+  have hi : QInv (SchedQueue.step true (SchedQueue.run true sched) (.remove h)) :=
+    (sched_step _ _ (sched_runFrom sched SchedQueue.init qinv_init).2.1).2
+  have := hi.2 h hq
+  simp [step_ctrl, bookkeeping, setCtrl] at this
+
+/-- the scheduler as it was: a complete torrent removed before its completion event stays queued, and a
+new request queues it twice -/
+theorem not_sched_queue_nodup_original :
+    ¬ ∀ sched, GoodQ (SchedQueue.run false sched).q := by
+  intro h
+  have := h [.request 0 false, .finish 0, .remove 0, .request 0 false]
+  revert this; decide
+
+theorem not_sched_removed_not_queued_original :
+    Queued (SchedQueue.step false (SchedQueue.run false [.request 0 false, .finish 0]) (.remove 0)).q 0 := by
+  unfold Queued; decide
+
+-- non-vacuity: the same schedule on the repaired scheduler, and a tick with a saturated torrent
+example : (SchedQueue.run true [.request 0 false, .finish 0, .remove 0, .request 0 false]).q.ready = [0] := by decide
+example : allOps true SchedQueue.init [.request 0 false, .finish 0, .remove 0, .request 0 false, .notice 0 0]
+    = [.add 0, .eject 0, .add 0] := by decide
+example : allOps true SchedQueue.init [.request 0 false, .request 1 false, .announceTick [0], .announceResult 1]
+    = [.add 0, .add 1, .next, .next, .ready 0, .ready 1] := by decide
+example : (SchedQueue.run true [.request 0 false, .request 1 false, .announceTick [0], .announceResult 1]).q.ready = [0, 1] := by decide
 
 end KrakenModel.Spec.C20
